@@ -6,10 +6,14 @@ CONSTANTS
   SdFields <- MCSdFields
   SuFields <- MCSuFields
   MaxLen = 2
-  Variants = 2
+  Shapes <- MCShapes
+  Targets <- MCTargets
+  EmptyDiffShapes <- MCEmptyDiffShapes
+  ClassShapes <- MCClassShapes
   MaxPending = 2
   SuccessionChecked = TRUE
   RootChecked = TRUE
+  RootCheckedOnEmptyDiff = TRUE
   TxHashesChecked = TRUE
   WriteBeforeChecks = TRUE
 INIT Init
